@@ -195,6 +195,28 @@ ApplyEdgePoints(s, n, p, b) ==
 Apply(s, op) ==
     IF op.kind = "np" THEN ApplyNodePoints(s, op.n, op.b) ELSE ApplyEdgePoints(s, op.n, op.p, op.b)
 
+\* ---------------------------------------------------------------- verification and repair
+\* admin.storeVerify / admin.storeMaint (verifyNodeHashes).  C03's last clause says a verification
+\* finds nothing on any store the write path has produced; the rest is beyond the listed properties.
+\* What the walk computes for an edge: its points and the STORED hashes of its child edges
+\* (data.NodeEdge.CalcHash over the children as read from the store).
+LocalHash(s, e) ==
+    LET kids == SetToSeqAny(DownOf(s.edges, e[2]))
+    IN XorSeq(<<NodeAtoms(s, e[2]), EdgeAtoms(s, e)>> \o [i \in 1..Len(kids) |-> s.hash[<<e[2], kids[i]>>]])
+\* what a verification reports
+Mismatches(s) == {e \in s.edges : s.hash[e] # LocalHash(s, e)}
+\* the repaired store: every hash is the documented function of the content below it
+Repaired(s) == [s EXCEPT !.hash = [e \in s.edges |-> CalcHash(s, e)]]
+\* one maintenance pass as coded: the walk lists a node's children (with their stored hashes) before
+\* it descends into them, repairs them, and then computes the node's own hash from the list it read
+\* before - so every edge gets LocalHash of the state the pass started from
+MaintPass(s) == [s EXCEPT !.hash = [e \in s.edges |-> LocalHash(s, e)]]
+RECURSIVE MaintTimes(_, _)
+MaintTimes(s, k) == IF k = 0 THEN s ELSE MaintTimes(MaintPass(s), k - 1)
+\* passes the as-coded maintenance needs (bounded by the number of edges + 1)
+RECURSIVE PassesNeeded(_, _, _)
+PassesNeeded(s, k, bound) == IF HashConsistent(s) \/ k >= bound THEN k ELSE PassesNeeded(MaintPass(s), k + 1, bound)
+
 \* ---------------------------------------------------------------- reads
 \* nodes.<parent>.<id> with options (node type filter, include deleted placements): which
 \* placements a read returns (store.handleNodesRequest -> DbSqlite.getNodes).  Every placement
